@@ -467,8 +467,8 @@ func (g *Gen) bigVecMerge() {
 	cfg.vecOne, cfg.vecAll = true, true
 	cfg.vecOptOverride = []string{"memory-efficient", "latency", "recall"}[(g.stats["vec.bigmerge"]/3)%3]
 	b := g.randBatch(g.fresh("b"), cfg)
-	if g.stats["vec.bigmerge"]%2 == 1 {
-		// every second big vector merge is over an inner-product field with vectors of all lengths
+	if g.stats["vec.bigmerge"]%3 == 0 {
+		// the big vector merges that stay clustered (exactly 1000 survivors) are over an inner-product field with vectors of all lengths
 		// (scores are inner products of the vectors as they were indexed, not of normalised ones)
 		for d := range b.Docs {
 			for k := range b.Docs[d].Fields {
